@@ -32,6 +32,7 @@ class FakeOde:
     def set_initial_value(self, y, t=0.0):
         self.y = np.array(y, dtype=float)
         self.y0 = self.y.copy()
+        self._last = self.y.copy()
         self.t = t
         return self
 
@@ -40,7 +41,17 @@ class FakeOde:
         self.t = t
         if cls.log is not None:
             cls.log.append(float(t))
-        self.y = np.array(cls.state_fn(t, self.y0), dtype=float)
+        new = np.array(cls.state_fn(t, self.y0), dtype=float)
+        # like the real solver, continue from the state object the caller can see: whatever the
+        # caller wrote into `sol.y` since the last call is carried into the next state
+        last = getattr(self, "_last", None)
+        if last is not None and last.shape == new.shape == np.shape(self.y):
+            with np.errstate(all="ignore"):
+                delta = np.asarray(self.y, dtype=float) - last
+            dmg = ~(delta == 0)
+            new[dmg] = new[dmg] + delta[dmg]
+        self.y = new
+        self._last = new.copy()
         if cls.success_fn is not None:
             self._ok = bool(cls.success_fn(t))
         return self.y
